@@ -237,6 +237,7 @@ def parseREvents (toks : List String) : Option (List REvent) := do
   let parts ← toks.mapM fun t =>
     if t == "i" then some [REvent.interrupted]
     else if t == "e" then some [REvent.error]
+    else if t == "t" then some [REvent.error]   -- a read timeout is an I/O error like any other
     else if t == "z" then some [REvent.eof]
     else match t.splitOn ":" with
       | ["d", hx] => (parseHex hx).map (·.map REvent.byte)
